@@ -22,6 +22,9 @@ type ReplaySpec struct {
 	Pkg   string `json:"pkg"`   // package directory relative to the repo, e.g. ./x/rvesting/module
 	File  string `json:"file"`  // file under /verif/replay
 	Run   string `json:"run"`   // -run pattern
+	// properties for which this replay is the history of a REPAIRED defect: the thorough tier runs it against the
+	// current tree as a regression (REPLAY-CONFIRMED = the defect is back, a violation with its failing history)
+	Regress []string `json:"regression_of_fixed_defect_for"`
 }
 
 func loadReplaySpecs() []ReplaySpec {
